@@ -88,7 +88,7 @@ def main(argv):
     props = [argv[argv.index("--prop") + 1]] if "--prop" in argv else None
     only = argv[argv.index("--only") + 1].split(",") if "--only" in argv else None
     todo = collect(props, only)
-    defaults = {"C20": (1600, 75), "C17": (6000, 50), "C15": (600, 80)}
+    defaults = {"C20": (2000, 900), "C17": (4000, 900), "C15": (600, 900)}
     results = []
     missed = 0
     for m in todo:
